@@ -12,7 +12,8 @@ and not moved out, or captured by a not-yet-started future stored there.
               object-server dispatcher, the two name monitors — all stored inside `ConnectionInner`),
               *transient* tasks (per-call handler, queued RemoveMatch) and the proxy's cache task (owned by a
               proxy, itself a handle); `Task::detach` is used by transient sites only (a resident task dies
-              with `ConnectionInner`)
+              with `ConnectionInner`); helper threads / `spawn_blocking` closures (executor ticker, blocking
+              socket calls) capture no strong handle
   W-IDLE      resident tasks hold no strong handle while waiting for input: at every `stream.next().await`
               of the dispatcher / the name monitors and at every suspension point of the reader task
               (`receive_msg`, `read_socket`), nothing held is a strong handle; `SocketReader` owns none
@@ -69,6 +70,17 @@ DROP_EVENT_USERS = {
 
 def is_spawn(c):
     return c.is_("Executor::<'a>::spawn", "Executor::<'_>::spawn", "Executor::spawn") and "abstractions::executor" in c.callee
+
+
+def is_other_spawn(c):
+    n = c.callee
+    if is_spawn(c):
+        return False
+    last = n.split("::")[-1]
+    if not last.startswith("spawn"):
+        return False
+    return n.startswith(("std::thread::", "tokio::", "async_executor::", "async_task::", "async_global_executor::", "blocking::")) \
+        or "abstractions::executor::Task" in n
 
 
 def is_next(c):
@@ -144,6 +156,30 @@ def check_config(ctx, f, tag):
                "%s: %s" % ent if ent else "unclassified task spawn (resident tasks must be checked for strong handles)", c.where)
         if ent and ent[0] == "resident":
             resident.append((b, c))
+    # other ways of starting concurrent work (helper threads, blocking helpers, raw executor APIs): whatever
+    # they capture must not be a strong handle
+    n_other = 0
+    for b in f.all_bodies("zbus"):
+        if b.root.startswith("zbus::abstractions::"):
+            continue
+        for c in mir.calls(b):
+            if not is_other_spawn(c):
+                continue
+            n_other += 1
+            held = []
+            unresolved = []
+            for ty in (c.c.get("argtys") or []):
+                found, missing = cf.bodies_in_type(f, ty)
+                unresolved += missing
+                if S.holds(ty):
+                    held.append(("argument", ty))
+                for nb in found:
+                    held += cf.strong_captured(f, nb, S)
+            ctx.ob("S-SPAWN", tag + "helper-captures-nothing-strong:%s:%s" % (b.root, c.callee.split("::")[-1]),
+                   not held and not unresolved,
+                   "%s: the closure captures no strong handle" % c.callee if not held and not unresolved else
+                   "%s captures %s %s" % (c.callee, fmt_held(held), unresolved), c.where)
+    ctx.floor("S-SPAWN", tag + "helper thread / blocking-task sites", n_other, 1)
     for b in f.all_bodies("zbus"):
         for c in mir.calls(b):
             if c.is_("detach") and "executor::Task" in c.callee:
